@@ -25,10 +25,13 @@ ASSUMPTIONS = ['the token list is the one pico8/lua/lexer.py produces (the lexer
                'over the token forms the real lexer splits as the generator intends (checked per case)',
                'dialect = Lua 5.2 grammar + PICO-8 compound assignment, integer / peek operators, !=, one-line if; the form '
                '`if (c) do ... end` is read by picotool as `if (c) then ... end` on purpose and is only generated on request']
-PARTIAL = ('C08_complete covers the whole reference grammar under four explicit hypotheses on the derivation (in_frag / tokdata_ok, '
-           'notes/C08.md): statements starting with "(" follow a ";" (Lua call ambiguity); a one-line if body starts with an item '
-           'that is not a do-block (known finding) and its else part, if any, has a statement (picotool drops an empty one); node '
-           'flags / token leaves of the derivation are well formed. Outside these the generated-program stream and the monitor apply')
+PARTIAL = ('C08_complete covers the whole reference grammar under three explicit exclusions on the derivation (excl g, '
+           'notes/C08.md): a statement starting with "(" follows a ";" or is the first statement of a block other than the body '
+           'of a one-line if (Lua call ambiguity); a one-line if body starts with an item that is not a do-block (known finding) '
+           'and its else part, if any, has a statement (picotool drops an empty one). Well-formedness of the derivation TREE (only '
+           'if-nodes carry the short flag, token leaves carry their token\'s data) is now part of the reference definition '
+           'derives (Spec/LuaGrammar.v: flags_ok, leaves_ok), hence checked by the monitor on every generated derivation. Outside '
+           'the exclusions the generated-program stream and the monitor apply')
 CLAIM = dict(
     text=("Theorems about a model of pico8/lua/parser.py that mirrors every parse function, the white-space skipping _accept "
           "with the short-if fence and the backtracking, over BINOP_PATS / UNOP_PATS regenerated from parser.py: C08_fuel (the "
@@ -36,10 +39,11 @@ CLAIM = dict(
           "root spans [0, end], every node start <= end <= enclosing end), C08_leaves (every significant token of the consumed "
           "range is accounted for by exactly one leaf of the tree, in source order), C08_shortif_fence (a one-line if never "
           "extends past the newline that follows its condition). C08_complete: for every token list ts and every derivation g of ts in "
-          "the reference grammar (derives ts g, line_scoped ts g) that satisfies the computable side conditions in_frag g (a "
-          "statement starting with '(' follows a ';'; the body of a one-line if starts with an item that is not a do-block; its "
-          "else part has a statement; only if-nodes carry the short flag) and tokdata_ok ts g (token leaves carry the data of their "
-          "token), the model accepts, the end position leaves only white space / comments (consumed) and the Python-visible tree "
+          "the reference grammar (derives ts g - which includes that g is a well-formed derivation tree: only if-nodes carry the "
+          "short flag, token leaves carry the data of their token -, line_scoped ts g) that satisfies the computable exclusions "
+          "excl g (a statement starting with '(' follows a ';' or is the first statement of a block that is not the body of a "
+          "one-line if; the body of a one-line if starts with an item that is not a do-block; its else part has a statement), "
+          "the model accepts, the end position leaves only white space / comments (consumed) and the Python-visible tree "
           "is the denoted one (denotes g (view root)): statement kinds, nesting, chains, lists, targets, operators and operands in "
           "source order, one-line ifs owning exactly their line and else part. "
           "Tie: extracted model vs the real parser on generated programs x layouts and malformed inputs (full tree dump with "
